@@ -20,6 +20,18 @@ Line-protocol driver of C06 (`cola.linalg.inv` / `solve`).  One JSON case per in
   predicted error.  Used by the float-side stream of c06.py (n up to 200, payloads omitted: the
   selection does not read them).
 Run with `lake env lean --run DriverC06.lean < cases.jsonl`.
+
+**What in this file has NO theorem behind it.**  `iterSees` / `kronSees` / `bdiagSees` / `denseSees` (which operand
+each `IterativeOperatorWInfo` node of the result receives while `B @ X` / `B.to_dense()` is evaluated),
+`zeroColumn` / `badZeroCol`, `gradeOf` (exact elimination: dimension of the Krylov space) and `badBreakdown` are
+EXECUTABLE DIAGNOSTICS.  They are `partial def`s / plain programs defined here, no theorem of `Properties/C06*`
+(or of C13 / C15) mentions them, and nothing is proved about them — in particular not that `iterSees` visits the
+operands the model `InvOp.mm` multiplies (it re-implements the member walk of `kronStepV` / the BlockDiag reshape),
+nor that `gradeOf` is the grade.  Their only use: the `clauses` output, by which the harness ATTRIBUTES a disagreement
+between real code and specification to one of the two recorded, already decided clauses
+(`gmres-zero-rhs-column`, `gmres-krylov-breakdown`).  A wrong diagnostic can therefore mis-label a failure
+(excuse too much or too little), it cannot make a theorem false; the harness limits the damage by applying a clause
+only to the failure class it predicts (NaN / LinAlgError in the solve) and compares everything else exactly.
 -/
 
 open Lean (Json)
